@@ -89,6 +89,12 @@ structure FilterCoefs (α : Type) where
   a2 : α
   a3 : α
 
+/-- mirrors: clock/time.rs::ClockTime (one clock: the `clock: ClockId` field is not modelled; `u64` ticks are `Nat`) -/
+structure ClockTime (α : Type) where
+  ticks : Nat
+  fraction : α
+deriving Repr
+
 variable {α : Type} [Mul α] [OfScientific α] [KOps α] in
 /-- `std::f64::consts::TAU`.  In binary64 TAU is exactly `2 * PI` (doubling is exact); the `lfo`
     correspondence suite pins the bits (`starting_phase / TAU`, `sin(phase * TAU)`). -/
